@@ -30,6 +30,8 @@ UNIVERSES = {
     "weird": {"s": ["x y", "v1.0", "é", "job", "a.b"], "a": [0, 1]},
     "typed": {"a": [1, 1.0, "1", True]},
     "sep": {"s": ["p/q", "ok"], "a": [0, 1]},
+    "dots": {"s": [".h5", ".hidden", "..", "x", "..x", "."], "a": [0, 1]},
+    "nestedsep": {"n": [{"x": "p/q"}, {"x": "ok"}, {"x": ".."}, {"x": 1}], "l": [["p/q"], [1], ["."]], "a": [0, 1]},
 }
 PATHS = [None, None, None, False, "x/{{auto}}", "{{auto:_}}", "id/{job.id}"]
 
@@ -42,6 +44,13 @@ def flat(sp, pre=""):
         else:
             out[pre + k] = v
     return out
+
+
+def spell(v):
+    """How a value appears in an automatic path (lists are spelled as tuples)."""
+    def tup(x):
+        return tuple(tup(y) for y in x) if isinstance(x, list) else x
+    return str(tup(v))
 
 
 class Engine(EngineBase):
@@ -210,9 +219,11 @@ class Run:
             self.proj.create_linked_view(prefix=prefix, job_ids=job_ids, path=path)
         except Exception as e:  # noqa: BLE001
             exc = e
-        has_sep = any(isinstance(x, str) and os.sep in x
-                      for j in sel for kv in flat(self.model[j]).items() for x in kv) or \
-            any(os.sep in k for j in sel for k in self.model[j])
+        # keys and formatted values become path components: a component holding the separator, or equal
+        # to '.' or '..', cannot be represented
+        comps = [c for j in sel for k, v in flat(self.model[j]).items() for c in (*k.split("."), str(v))]
+        has_sep = any(os.sep in c for c in comps)
+        has_dots = any(c in (os.curdir, os.pardir) for c in comps)
         pk = "None" if path is None else "False" if path is False else path
         if exc is not None:
             after = snapshot(prefix) if os.path.lexists(prefix) else None
@@ -231,6 +242,9 @@ class Run:
         if has_sep:
             raise Mismatch(P, "C17:separator-accepted", f"a state point of the selection contains '{os.sep}' but "
                            f"create_linked_view succeeded")
+        if has_dots:
+            raise Mismatch(P, "C17:dot-component-accepted", "a state point value of the selection is '.' or '..' "
+                           "(not representable as a path component) but create_linked_view succeeded")
         if self.dirty[pidx] and before is not None:
             self.probe("view_updated_after_change")
         self.dirty[pidx] = False
@@ -321,7 +335,7 @@ class Run:
                 seen = {}
                 for i in range(0, len(toks), 2):
                     seen[toks[i]] = toks[i + 1]
-                expect = {k: str(v) for k, v in f.items() if k not in const}
+                expect = {k: spell(v) for k, v in f.items() if k not in const}
                 if seen != expect:
                     raise Mismatch(P, "C17:path-spelling",
                                    f"{ctx}: job {self.model[j]} is linked at {rs[0]}; its distinguishing keys "
